@@ -202,7 +202,8 @@ static void eb_dbl_projc_imp(eb_t r, const eb_t p) {
 #if EB_ADD == BASIC || !defined(STRIP)
 
 void eb_dbl_basic(eb_t r, const eb_t p) {
-	if (eb_is_infty(p)) {
+	/* The point with x = 0 has order two (the slope would divide by x). */
+	if (eb_is_infty(p) || fb_is_zero(p->x)) {
 		eb_set_infty(r);
 		return;
 	}
